@@ -13,7 +13,31 @@ from onnxscript.rewriter._rewrite_rule import RewriteRule, RewriteRuleSet
 Dim = Union[int, ir.SymbolicDim]
 
 
-def check_shape_bool(bindings: dict[str, Dim], val: ir.Value, shape: Sequence[str]) -> bool:
+def _differs(actual: Dim, bound: Dim) -> bool:
+    """True unless the two dimensions are known to be equal at runtime.
+
+    ``SymbolicDim(None) == SymbolicDim(None)`` is True although two unknown dimensions
+    need not have the same size: an unknown dimension never equals anything.
+    """
+    if isinstance(actual, ir.SymbolicDim) and actual.value is None:
+        return True
+    if isinstance(bound, ir.SymbolicDim) and bound.value is None:
+        return True
+    return actual != bound
+
+
+def check_shape_bool(
+    bindings: dict[str, Dim],
+    val: ir.Value,
+    shape: Sequence[str],
+    *,
+    unknown_dims_match: bool = False,
+) -> bool:
+    """Bind the names in `shape` to the dimensions of `val`; False if a bound name has another dimension.
+
+    With `unknown_dims_match` two unknown dimensions (SymbolicDim(None)) are taken to be equal, which
+    is only safe when the matched computation itself forces them to be (e.g. operands of one Add).
+    """
     if val.shape is None:
         return False
     if val.shape.rank() != len(shape):
@@ -21,7 +45,10 @@ def check_shape_bool(bindings: dict[str, Dim], val: ir.Value, shape: Sequence[st
     for actual, expected in zip(val.shape, shape):
         if expected not in bindings:
             bindings[expected] = actual  # type: ignore[assignment]
-        elif actual != bindings[expected]:
+        elif unknown_dims_match:
+            if actual != bindings[expected]:
+                return False
+        elif _differs(actual, bindings[expected]):
             return False
     return True
 
@@ -37,7 +64,7 @@ def check_shape(bindings: dict[str, Dim], val: ir.Value, shape: Sequence[str]):
     for i, (actual, expected) in enumerate(zip(val.shape, shape)):
         if expected not in bindings:
             bindings[expected] = actual  # type: ignore[assignment]
-        elif actual != bindings[expected]:
+        elif _differs(actual, bindings[expected]):
             raise MatchFailureError(
                 f"Dimension {i} of {val} ({actual}) does not have expected size ({bindings[expected]}).",
                 val,
